@@ -83,7 +83,7 @@ func pickRel(r *rand.Rand, td *openfgav1.TypeDefinition) string {
 	return names[r.Intn(len(names))]
 }
 
-const NDegenerations = 30
+const NDegenerations = 32
 
 func degenerateOnce(r *rand.Rand, m *openfgav1.AuthorizationModel) string {
 	td := pickTD(r, m)
@@ -253,6 +253,28 @@ func degenerateOnce(r *rand.Rand, m *openfgav1.AuthorizationModel) string {
 		if td != nil && len(td.Relations) > 0 {
 			td.Relations[""] = This()
 			return "empty relation name"
+		}
+	case 30:
+		if td != nil {
+			if td.Metadata == nil {
+				td.Metadata = &openfgav1.Metadata{}
+			}
+			td.Metadata.Module, td.Metadata.SourceInfo = "mod", nil
+			for _, md := range td.Metadata.Relations {
+				if md != nil {
+					md.Module, md.SourceInfo = "ext", nil
+				}
+			}
+			return "module attribution without source info"
+		}
+	case 31:
+		for _, cd := range m.Conditions {
+			if cd != nil {
+				cd.Metadata = &openfgav1.ConditionMetadata{Module: "mod"}
+			}
+		}
+		if len(m.Conditions) > 0 {
+			return "condition with a module but no source info"
 		}
 	case 29:
 		if td != nil {
